@@ -39,7 +39,12 @@ def build(c):
     for i in range(k):
         steps += [["open", f"s{i}"], ["hello", f"s{i}", {"mod_id": 20 + i, "logger": int(c["logger"][i])}]]
     steps.append(["drain"])
-    steps += [["sub", "m", W.MT_FAILED_MESSAGE], ["sub", "m2", W.MT_FAILED_MESSAGE]]
+    if c.get("mon_all"):
+        # nobody subscribes to FAILED_MESSAGE by name and there is no logger: the only module entitled to the notices
+        # is one subscribed to everything
+        steps += [["sub", "m", ALL]]
+    else:
+        steps += [["sub", "m", W.MT_FAILED_MESSAGE], ["sub", "m2", W.MT_FAILED_MESSAGE]]
     for i in range(k):
         steps.append(["sub", f"s{i}", ALL if c["suball"][i] else c["type"]])
     if c.get("pub_sub"):
@@ -90,6 +95,8 @@ def gen_cases(tier, seed):
             suball=[rng.random() < 0.3 for _ in range(k)], rst=[i for i in range(k) if rng.random() < 0.25],
             dest=rng.choice("bbax"), type=rng.choice(types), mon_nw=rng.random() < 0.2, npub=rng.choice([1, 1, 2]),
             pub_sub=rng.choice([None, None, None, "ok", "nw"]))
+        if rng.random() < 0.15:
+            cases[-1].update(mon_all=True, mon_nw=False, logger=[False] * k)
     # messages that originate from the manager itself (CLIENT_INFO after CLIENT_SET_NAME / MODULE_READY) and cannot
     # be handed to a subscriber
     for _ in range(300 if tier == "quick" else 6000):
@@ -233,7 +240,7 @@ def judge(sc, c):
                           "detail": f"{M} received a FAILED_MESSAGE whose embedded header has type {n['h_type']}"})
     if c["type"] in recursion_types or c["mon_nw"]:
         C["recursion_cases"] = 1
-    if not c["mon_nw"]:
+    if not c["mon_nw"] and not c.get("mon_all"):
         # both monitors are writable: everyone subscribed to FAILED_MESSAGE gets every notice
         a = [(n["dest_mod_id"], n["h_type"], n["h_send_time"]) for n in notices["m"]]
         b = [(n["dest_mod_id"], n["h_type"], n["h_send_time"]) for n in notices["m2"]]
